@@ -181,9 +181,18 @@ def check(r, lexpr, thorough=False):
 
 
 def _fmt(d):
+    try:
+        return _fmt0(d)
+    except Exception:
+        return repr(d)
+
+
+def _fmt0(d):
     from .cloneid import _show
+    if d == ():
+        return "[]"
     if isinstance(d, tuple) and d and d[0] in ("some", "none"):
-        return "None" if d[0] == "none" else "Some(%s)" % _fmt(d[1])
+        return "None" if d[0] == "none" else "Some(%s)" % _fmt0(d[1])
     if isinstance(d, tuple) and len(d) == 2 and isinstance(d[0], tuple) and (not d[0] or isinstance(d[0][0], tuple)):
         # (items, tail) or a tuple of items
         if d[0] and isinstance(d[0][0], tuple) and isinstance(d[1], tuple) and d[1] and isinstance(d[1][0], str):
